@@ -39,7 +39,7 @@ let bytes_res = function Ok o -> hex_of_bytes o | Panic -> "PANIC" | OutOfFuel -
 let eval (fn : string) (args : string list) : string =
   match fn, args with
   | "ParseTreeX", [x; src] -> tree_res (parseTreeX (parse_xcfg x) (bytes_of_hex src))
-  | "ConvertX", [x; cfg; src] -> bytes_res (convertModelX (parse_xcfg x) (parse_rcfg cfg) (bytes_of_hex src))
+  | "ConvertX", [x; cfg; src] -> bytes_res (convertModelXC (parse_xcfg x) (parse_rcfg cfg) (bytes_of_hex src))
   | "ParseTreeGfm", [src] -> tree_res (parseTreeGfm (bytes_of_hex src))
-  | "ConvertGfm", [cfg; src] -> bytes_res (convertModelGfm (parse_rcfg cfg) (bytes_of_hex src))
+  | "ConvertGfm", [cfg; src] -> bytes_res (convertModelGfmC (parse_rcfg cfg) (bytes_of_hex src))
   | _ -> failwith ("unknown case kind " ^ fn)
